@@ -87,6 +87,20 @@ def _subterms(terms):
             todo.extend(t.children())
 
 
+def _mentions_bound_var(t):
+    todo, seen = [t], set()
+    while todo:
+        x = todo.pop()
+        if x.get_id() in seen:
+            continue
+        seen.add(x.get_id())
+        if z3.is_var(x):
+            return True
+        if not z3.is_quantifier(x):
+            todo.extend(x.children())
+    return False
+
+
 def instantiate_axioms(terms, rounds=2):
     """Ground instances of the schema facts for every UF application in `terms`."""
     facts = []
@@ -104,6 +118,8 @@ def instantiate_axioms(terms, rounds=2):
             if key in done:
                 continue
             done.add(key)
+            if _mentions_bound_var(t):
+                continue      # only closed applications are instantiated
             new += _facts_for(name, t)
         if not new:
             break
@@ -1030,7 +1046,9 @@ def _old(eng, e, st, fr, k):
     cur_heap, cur_alloc = st.heap, st.alloc
     st.heap = oheap.copy()
     st.alloc = oalloc
-    st.frames.append(dict(oenv))
+    fr_old = dict(oenv)
+    fr_old["__parent__"] = len(st.frames) - 1      # quantified variables / ghost names stay visible
+    st.frames.append(fr_old)
     def done(s, v):
         s.frames.pop()
         s.heap = cur_heap
